@@ -456,6 +456,7 @@ class C12(core.Check):
             outcome = "raised:" + type(e).__name__  # on the given tree an error ends the session
         finally:
             steps = world.CLOCK.stop()
+            unw, unw_by, unw_via = world.CLOCK.unwinds, world.CLOCK.swallowed_by, world.CLOCK.via_last
             sys.stdout = old_out
             main.vy_print = real_print
         log.append(dict(ev="repl", outcome=outcome or "eof", records=[[list(d), t, n] for d, t, n in records]))
@@ -467,6 +468,10 @@ class C12(core.Check):
                 delta = tuple(a - b for a, b in zip(d, base))
                 which = "".join(("+" if x > 0 else "-") + nm for x, nm in zip(delta, ("cv", "in", "st", "fs")) if x) or "top-context"
                 sig = f"depth:{which}:repl:{'after-error' if rp.get('fail') else 'plain'}"
+                if unw and outcome is None:
+                    # the session ended with the end of its input, yet an exception left a lambda / function body on the
+                    # way: something swallowed it (the same attribution as in the other two drivers)
+                    sig = f"depth:{which}:swallowed-exception:by={unw_by or 'C-level'}" + (f":via={unw_via or '-'}" if unw_by else "")
                 log.append(dict(violation=sig))
                 return dict(verdict=VIOLATION, sig=sig, log=log, steps=steps, cov=sorted(cov), hist=self.hist(case, text),
                             detail=f"REPL session {lines!r}: the line read at stdin read {nread} finished normally at depths {d} "
